@@ -1207,7 +1207,7 @@ func callBuiltin(caller *frame, callpos token.Pos, fn *ssa.Builtin, args []value
 func rangeIter(x value, t types.Type) iter {
 	switch x := x.(type) {
 	case map[value]value:
-		return &mapIter{iter: reflect.ValueOf(x).MapRange()}
+		return newMapIter(x)
 	case *hashmap:
 		return &hashmapIter{iter: reflect.ValueOf(x.entries()).MapRange()}
 	case string:
